@@ -110,3 +110,8 @@ def canaries(tier):
         {'name': 'reverse-bm-interval', 'job': 'revheun-scalar',
          'patches': [('torchsde._brownian.derived', 'out = self.base_brownian(-tb, -ta, return_U=return_U, return_A=return_A)', 'out = self.base_brownian(-ta, -tb, return_U=return_U, return_A=return_A)')]},
     ]
+
+
+def native_replay(ob):
+    from props.base import run_native
+    return run_native('c15')
